@@ -138,7 +138,7 @@ class OEval:
         return UNKNOWN
 
 
-def cases(lanes, consts):
+def cases(lanes, consts, nan=True):
     """yield env dicts"""
     cvals = []
     for c in consts:
@@ -148,7 +148,7 @@ def cases(lanes, consts):
         cvals.append((x, c))
     cvals.sort(key=lambda p: p[0])
     n = len(lanes)
-    for nanmask in range(1 << n):
+    for nanmask in (range(1 << n) if nan else (0,)):
         live = [l for i, l in enumerate(lanes) if not (nanmask >> i) & 1]
         items = live + [c for _, c in cvals]
         k = len(items)
@@ -182,14 +182,14 @@ def describe(env):
     return ', '.join(out)
 
 
-def equivalent(t1, t2, boolean=False, max_ops=5):
+def equivalent(t1, t2, boolean=False, max_ops=5, nan=True):
     """True / (False, case description, v1, v2) / None (outside the fragment)"""
     lanes, consts = operands([t1, t2])
     consts = [c for c in consts if _used_as_float(c, [t1, t2])]
     if len(lanes) + len(consts) > max_ops or not lanes:
         return None
     unknown = False
-    for env in cases(lanes, consts):
+    for env in cases(lanes, consts, nan):
         e = OEval(env)
         a = e.b(t1) if boolean else e.v(t1)
         b = e.b(t2) if boolean else e.v(t2)
